@@ -26,15 +26,6 @@ def parseTag (s : String) : Option BTag :=
   | [c, v] => do let code ← c.toNat?; let val ← parseVal v; some ⟨code, val⟩
   | _ => none
 
-/-- the `while index < data_length` loop -/
-def decAll (r12 : Bool) : Nat → List Nat → Except PyErr (List BTag)
-  | 0, _ => .ok []
-  | fuel + 1, bs =>
-    if bs.isEmpty then .ok [] else do
-      let (t, r) ← decTag r12 bs
-      let ts ← decAll r12 fuel r
-      .ok (t :: ts)
-
 def pyShowInt (v : Int) : String := toString v
 
 open EzdxfVerif.XTags in
